@@ -237,3 +237,19 @@ func VH_C14_fixed26_6() {
 	c := fixedPoint26_6(1.5, -1.4/64)
 	vAssert("C14.fixed.pinned", c.X == 96 && c.Y == 0)
 }
+
+// C14-H4: "for any ... coordinate system": the matrix a Context applies for its coordinate system
+// on a W x H target maps a point to its position in the target's own (Cartesian I) system:
+// II mirrors x about W/2, III mirrors both, IV mirrors y about H/2.  W, H and the point symbolic.
+func VH_C14_coordsystem_Q() {
+	w, h := vhReal(), vhReal()
+	vAssume(w > 0 && h > 0)
+	rec := &vhC15Rec{w: w, h: h}
+	c := NewContext(rec)
+	cs := CoordSystem(vChoose(0, 3))
+	c.SetCoordSystem(cs)
+	p := Point{vhReal(), vhReal()}
+	got := c.CoordSystemView().Dot(p)
+	exp := vhC15CSV(cs, w, h, p)
+	vAssert("C14.coordsystem.view", got.X == exp.X && got.Y == exp.Y)
+}
